@@ -57,6 +57,17 @@ func VP_C20_Symmetrical() {
 			only = only && is
 		}
 		vpAssert(only, "nothing else")
+		// a NEW matrix: writing into the result must not reach the receiver
+		for k := range res {
+			res[k] = 99
+		}
+		res[[2]byte{Gap, Gap}] = -5
+		indep := len(m) == n
+		for _, e := range es {
+			v, ok := m[[2]byte{e.a, e.b}]
+			indep = indep && ok && v == e.v
+		}
+		vpAssert(indep, "the result is a new matrix: modifying it leaves the receiver unchanged")
 	}
 	vpReach("end")
 }
